@@ -138,6 +138,40 @@ def oracle(text, opts=None, accessors=True):
     return None
 
 
+# deep nesting: RecursionError is an exception like any other for this property -- it must come out as SQLParseError
+# (the guard itself is C15's subject; here only the outcome class is checked, for depths where grouping survives but the
+# filters may not, and beyond)
+DEEP_OPTS = [{}, {'reindent': True}, {'strip_whitespace': True}, {'reindent_aligned': True},
+             {'use_space_around_operators': True}, {'reindent': True, 'indent_columns': True, 'comma_first': True},
+             {'strip_comments': True}, {'output_format': 'python'}]
+
+
+def deep_cases(quick):
+    depths = (120, 400) if quick else (100, 250, 450, 700, 950, 1500)
+    out = []
+    for d in depths:
+        out.append(('paren', d, 'select ' + '(' * d + '1' + ')' * d))
+        if not quick:
+            out.append(('func', d, 'select ' + 'f(' * d + '1' + ')' * d + ' from t'))
+            out.append(('case', d // 3, 'select ' + 'case when a then ' * (d // 3) + '1' + ' end' * (d // 3)))
+            out.append(('brack', d, 'select a' + '[' * d + '1' + ']' * d))
+    return out
+
+
+def deep_sweep(quick):
+    fails, n = [], 0
+    for kind, d, text in deep_cases(quick):
+        for o in (DEEP_OPTS[:4] if quick else DEEP_OPTS):
+            n += 1
+            f = oracle(text, o, accessors=False)
+            if f:
+                f['input'] = [ord(c) for c in text]
+                f['deep'] = {'construct': kind, 'depth': d}
+                fails.append(f)
+                break
+    return fails, n
+
+
 # ---- narrow classes of the listed findings: (class name in known_findings.json) -> predicate(failure)
 def _txt(f):
     return ''.join(map(chr, f.get('input', [])))
@@ -213,6 +247,12 @@ def run(ctx):
         if f and f['class'] not in seen_cls:
             seen_cls.add(f['class'])
             res['failures'].append(f)
+    dfails, dn = deep_sweep(ctx.quick() if hasattr(ctx, 'quick') else True)
+    for f in dfails:
+        if f['class'] not in seen_cls:
+            seen_cls.add(f['class'])
+            res['failures'].append(f)
+    dist['deep_nesting'] = dn
     # the model's parse never fails, and agrees with the implementation on which inputs parse
     sample = texts[:ctx.n(1500, 15000)]
     dis, dumps = common.corr_stage('parse', sample, impl.parse_dump, 'parse', extra='all ')
@@ -234,7 +274,7 @@ def run(ctx):
 
 
 def run_oracle_only(ctx):
-    fails = []
+    fails = list(deep_sweep(True)[0])
     n = ctx.n(2500, 40000)
     for _ in range(n):
         s, kind, o = gen_case(ctx.rng)
@@ -257,6 +297,8 @@ def search(ctx, hints):
             if f and classify(f, known) is None:
                 fails.append(f)
                 break
+    if not fails:
+        fails += [f for f in deep_sweep(False)[0] if classify(f, known) is None][:1]
     while time.time() - t0 < ctx.n(60, 600) and not fails:
         s, kind, o = gen_case(ctx.rng)
         tried += 1
